@@ -269,4 +269,17 @@ func TestRegressBlockSearchUnverified(t *testing.T) {
 	regress(t, "TestRegressBlockSearchUnverified", idBlockSearch, defect, "BlockSearch relayed a block with a forged transaction and a consistent forged header")
 }
 
+// An honest, correctly proven answer "key absent" is refused whatever absence operator the application uses: the
+// verifying client passes the raw key where the proof runtime expects a key path.
+func TestRegressAbsenceKeyPath(t *testing.T) {
+	w := fixedWorld(t)
+	defer w.close()
+	c, _ := w.newVerifier(t, newLiar(w.core), 1, false)
+	res, err := c.ABCIQueryWithOptions(bg, "/store/acc/key", []byte("nobody"), rpcclient.ABCIQueryOptions{Height: 3, Prove: true})
+	if err == nil && (res.Response.Value != nil || string(res.Response.Key) != "nobody") {
+		t.Fatalf("wrong answer relayed: %s", jsonOf(res))
+	}
+	regress(t, "TestRegressAbsenceKeyPath", idAbsence, err != nil, "honest proven absence of key \"nobody\" refused: %v", err)
+}
+
 var _ = lrpc.NewClient
